@@ -44,6 +44,15 @@ theorem wideStr_wideBytes (us : List Nat) (hl : us.length < 4294967296) (h : ∀
     rw [List.take_left' (by rw [unitsBytes_length]; omega)]
   rw [this, units_unitsBytes us h]
 
+/-- the code's error table (translated from `next_cell`) is the specification's BErr table -/
+theorem xlsbErrTable_eq_berr : Gen.xlsbErrTable = berrTable := by decide
+
+/-- … and so is the table of xls `parse_err` -/
+theorem xlsErrTable_eq_berr : Gen.xlsErrTable = berrTable := by decide
+
+theorem isErrCode_eq_berr (c : Nat) : isErrCode c = (berrKind c).isSome := by
+  unfold isErrCode berrKind; rw [xlsbErrTable_eq_berr]
+
 /-- shape of every cell payload: 4 column bytes, 3 style bytes, a zero, then the body -/
 theorem payload_shape (c : CellRec) : c.payload =
     UInt8.ofNat (c.col % 256) :: UInt8.ofNat (c.col / 256 % 256) :: UInt8.ofNat (c.col / 65536 % 256) ::
@@ -123,7 +132,8 @@ theorem interpret_cell (ctx : Ctx) (c : CellRec) (hwf : c.WF) (v : Val)
     have hl : (Content.err code).bytes.length = 1 := rfl
     simp only [valueOf] at hv
     split at hv
-    · rename_i hok
+    · rename_i hok'
+      have hok : isErrCode code = true := by rw [isErrCode_eq_berr]; exact hok'
       have hid : CellRec.recId ⟨col, style, .err code, fmla⟩ = 3 ∨ CellRec.recId ⟨col, style, .err code, fmla⟩ = 11 := by
         cases fmla <;> simp [CellRec.recId]
       unfold interpret
@@ -622,53 +632,62 @@ theorem specCells_insert_raw (ctx : Ctx) (id : Nat) (p : Bytes) (l2 : List Item)
 theorem fillBuf_drop1 (buf : Bytes) (b : UInt8) (p : Bytes) :
     ∃ tail, (fillBuf buf (b :: p)).drop 1 = p ++ tail := ⟨[], by simp [fillBuf]⟩
 
-theorem sstItems_enc (post : Bytes) : ∀ (strs : List (List Nat × Bool × Nat)) (fuel : Nat) (buf : Bytes) (acc : List (List Nat)),
-    (∀ s ∈ strs, s.1.length < 100000000 ∧ ∀ u ∈ s.1, u < 65536) → 0 < fuel →
-    sstItems strs.length fuel buf (encodeItems (strs.map fun s => sstItem s.1 s.2.1 s.2.2) ++ post) acc
-      = .ok (acc.reverse ++ strs.map (·.1))
+theorem sstEntriesBytes_length_ge (post : Bytes) : ∀ (l : List SstEntry), ∀ e ∈ l,
+    2 * segsSize e.pre ≤ (sstEntriesBytes l post).length
+  | [], _, h => nomatch h
+  | x :: l, e, h => by
+    have hx := encodeSegs_length_ge x.pre
+    simp only [sstEntriesBytes, List.length_append]
+    rcases List.mem_cons.mp h with rfl | h'
+    · omega
+    · have := sstEntriesBytes_length_ge post l e h'; omega
+
+theorem sstItems_enc (post : Bytes) : ∀ (l : List SstEntry) (fuel : Nat) (buf : Bytes) (acc : List (List Nat)),
+    (∀ e ∈ l, e.OK) → (∀ e ∈ l, segsSize e.pre < fuel) →
+    sstItems l.length fuel buf (sstEntriesBytes l post) acc = .ok (acc.reverse ++ l.map (·.text))
   | [], _, _, acc, _, _ => by simp [sstItems]
-  | s :: strs, fuel, buf, acc, h, hf => by
-    obtain ⟨hl, hu⟩ := h s (List.mem_cons_self ..)
-    have hpl : (0 :: wideBytes s.1 : Bytes).length < 268435456 := by
-      simp only [List.length_cons, wideBytes, List.length_append, le32_length, unitsBytes_length]; omega
-    obtain ⟨b', hb'⟩ := nextSkipBlocks_segs 0x0013 (by omega) [(0x0023, some 0x0024)] (0 :: wideBytes s.1) hpl s.2.1 s.2.2
-      (encodeItems (strs.map fun s => sstItem s.1 s.2.1 s.2.2) ++ post) [] fuel buf (fun _ h => nomatch h) (by simpa [segsSize] using hf)
-    simp only [encodeSegs, List.nil_append] at hb'
-    simp only [List.length_cons, List.map_cons, encodeItems, List.append_assoc, sstItems]
-    rw [show (sstItem s.1 s.2.1 s.2.2).bytes = frame 0x0013 (0 :: wideBytes s.1) s.2.1 s.2.2 from rfl, hb']
+  | e :: l, fuel, buf, acc, h, hf => by
+    obtain ⟨hl, hu, hpl, hpre⟩ := h e (List.mem_cons_self ..)
+    obtain ⟨b', hb'⟩ := nextSkipBlocks_segs 0x0013 (by omega) [(0x0023, some 0x0024)] e.payload hpl e.wide e.lenW
+      (sstEntriesBytes l post) e.pre fuel buf hpre (hf e (List.mem_cons_self ..))
+    simp only [List.length_cons, sstEntriesBytes, sstItems]
+    rw [hb']
     simp only
-    have hge := fillBuf_length_ge b' (0 :: wideBytes s.1)
-    rw [if_neg (by simp only [List.length_cons] at hge; omega)]
-    obtain ⟨tail, ht⟩ := fillBuf_drop1 b' 0 (wideBytes s.1)
-    rw [ht, wideStr_wideBytes s.1 (by omega) hu]
+    have hge := fillBuf_length_ge b' e.payload
+    have hp1 : 1 ≤ e.payload.length := by simp [SstEntry.payload]
+    rw [if_neg (by omega)]
+    obtain ⟨tail, ht⟩ := fillBuf_drop1 b' (UInt8.ofNat e.flags) (wideBytes e.text ++ e.trailer)
+    rw [show fillBuf b' e.payload = fillBuf b' (UInt8.ofNat e.flags :: (wideBytes e.text ++ e.trailer)) from rfl, ht,
+      List.append_assoc, wideStr_wideBytes e.text (by omega) hu]
     simp only
-    rw [sstItems_enc post strs fuel _ (s.1 :: acc) (fun x hx => h x (List.mem_cons_of_mem _ hx)) hf]
+    rw [sstItems_enc post l fuel _ (e.text :: acc) (fun x hx => h x (List.mem_cons_of_mem _ hx))
+      (fun x hx => hf x (List.mem_cons_of_mem _ hx))]
     simp
 
-
-/-- `read_shared_strings` returns exactly the strings of the part, in order -/
-theorem readSharedStrings_enc (total : Nat) (hw : Bool) (hl : Nat) (strs : List (List Nat × Bool × Nat)) (post : Bytes)
-    (hn : strs.length < 4294967296)
-    (h : ∀ s ∈ strs, s.1.length < 100000000 ∧ ∀ u ∈ s.1, u < 65536) :
-    readSharedStrings (sstBytes total hw hl strs post) = .ok (strs.map (·.1)) := by
+/-- `read_shared_strings` returns exactly the texts of the items, in order: rich-text runs, phonetic data and
+    foreign records contribute nothing and shift nothing -/
+theorem readSharedStrings_enc (pre0 : List Seg) (total : Nat) (hw : Bool) (hl : Nat) (entries : List SstEntry) (post : Bytes)
+    (hp0 : ∀ s ∈ pre0, s.OK 0x009F []) (hn : entries.length < 4294967296) (h : ∀ e ∈ entries, e.OK) :
+    readSharedStrings (sstBytes pre0 total hw hl entries post) = .ok (entries.map (·.text)) := by
   unfold readSharedStrings sstBytes
-  have hpl : (le32 total ++ le32 strs.length).length < 268435456 := by simp [le32_length]
-  obtain ⟨b', hb'⟩ := nextSkipBlocks_segs 0x009F (by omega) [] (le32 total ++ le32 strs.length) hpl hw hl
-    (encodeItems (strs.map fun s => sstItem s.1 s.2.1 s.2.2) ++ post) []
-    ((frame 0x009F (le32 total ++ le32 strs.length) hw hl ++
-      (encodeItems (strs.map fun s => sstItem s.1 s.2.1 s.2.2) ++ post)).length + 1) [] (fun _ h => nomatch h)
-    (by simp [segsSize])
-  simp only [encodeSegs, List.nil_append] at hb'
+  have hpl : (le32 total ++ le32 entries.length).length < 268435456 := by simp [le32_length]
+  have hl0 := encodeSegs_length_ge pre0
+  obtain ⟨b', hb'⟩ := nextSkipBlocks_segs 0x009F (by omega) [] (le32 total ++ le32 entries.length) hpl hw hl
+    (sstEntriesBytes entries post) pre0
+    ((encodeSegs pre0 ++ (frame 0x009F (le32 total ++ le32 entries.length) hw hl ++ sstEntriesBytes entries post)).length + 1)
+    [] hp0 (by simp only [List.length_append]; omega)
   rw [hb']
   simp only
-  have hge := fillBuf_length_ge b' (le32 total ++ le32 strs.length)
+  have hge := fillBuf_length_ge b' (le32 total ++ le32 entries.length)
   rw [if_neg (by simp only [List.length_append, le32_length] at hge; omega)]
-  have hcount : u32le ((fillBuf b' (le32 total ++ le32 strs.length)).drop 4) = strs.length := by
+  have hcount : u32le ((fillBuf b' (le32 total ++ le32 entries.length)).drop 4) = entries.length := by
     unfold fillBuf
     rw [List.drop_left' (le32_length _)]
-    have := u32le_le32 strs.length hn []
+    have := u32le_le32 entries.length hn []
     simpa using this
-  rw [hcount, sstItems_enc post strs _ _ [] h (by omega)]
+  rw [hcount, sstItems_enc post entries _ _ [] h (fun e he => by
+    have := sstEntriesBytes_length_ge post entries e he
+    simp only [List.length_append]; omega)]
   simp
 
 /-! ### termination: every loop consumes bytes -/
@@ -1245,5 +1264,154 @@ theorem readSharedStrings_ne_fuel (bs : Bytes) : readSharedStrings bs ≠ .outOf
   | err e => simp
   | panic s => simp
   | outOfFuel => exact absurd h k1
+
+/-! ### formula vs constant records, the BErr table, coordinate bounds of the cells read -/
+
+theorem interpret_err_invalid (ctx : Ctx) (col style code : Nat) (fmla : Option Bytes) (hc : code < 256)
+    (hbad : isErrCode code = false) :
+    interpret ctx (CellRec.mk col style (.err code) fmla).recId (CellRec.mk col style (.err code) fmla).payload
+      = .fail (.err "CellError") := by
+  have hlen := payload_length ⟨col, style, .err code, fmla⟩
+  have hshape := payload_shape ⟨col, style, .err code, fmla⟩
+  generalize (CellRec.mk col style (.err code) fmla).payload = p at hlen hshape
+  have hl : (Content.err code).bytes.length = 1 := rfl
+  simp only at hlen
+  have h9 : ¬ p.length < 9 := by omega
+  have hb : (p.getD 8 0).toNat = code := by
+    rw [hshape]; simp [Content.bytes, List.getD]; omega
+  have hid : CellRec.recId ⟨col, style, .err code, fmla⟩ = 3 ∨ CellRec.recId ⟨col, style, .err code, fmla⟩ = 11 := by
+    cases fmla <;> simp [CellRec.recId]
+  unfold interpret
+  rcases hid with hid | hid <;> rw [hid] <;>
+    simp only [Nat.reduceEqDiff, if_false, false_or, or_true, true_or, if_true, if_neg h9, hb, hbad] <;> simp
+
+theorem fmla_eq_const (ctx : Ctx) (col style : Nat) (content : Content) (f : Bytes)
+    (hf : content.hasFmla = true) (hwf : (CellRec.mk col style content none).WF) :
+    interpret ctx (CellRec.mk col style content (some f)).recId (CellRec.mk col style content (some f)).payload
+      = interpret ctx (CellRec.mk col style content none).recId (CellRec.mk col style content none).payload := by
+  have key : ∀ v, valueOf ctx style content = some v →
+      interpret ctx (CellRec.mk col style content (some f)).recId (CellRec.mk col style content (some f)).payload
+        = interpret ctx (CellRec.mk col style content none).recId (CellRec.mk col style content none).payload := by
+    intro v hv
+    rw [interpret_cell ctx ⟨col, style, content, some f⟩ hwf v hv, interpret_cell ctx ⟨col, style, content, none⟩ hwf v hv]
+  cases content with
+  | blank => simp [Content.hasFmla] at hf
+  | rk w => simp [Content.hasFmla] at hf
+  | isst i => simp [Content.hasFmla] at hf
+  | bool b => exact key _ rfl
+  | real bits => exact key _ rfl
+  | str us => exact key _ rfl
+  | err code =>
+    by_cases h : isErrCode code = true
+    · exact key (.error code) (by simp only [valueOf]; rw [← isErrCode_eq_berr, h]; rfl)
+    · have hbad : isErrCode code = false := by simpa using h
+      have hc : code < 256 := hwf.2
+      rw [interpret_err_invalid ctx col style code (some f) hc hbad, interpret_err_invalid ctx col style code none hc hbad]
+
+theorem berrKind_code (c : Nat) (k : CellErrorType) (h : berrKind c = some k) : c = berrCode k := by
+  unfold berrKind berrTable at h
+  simp only [List.lookup] at h
+  repeat' split at h
+  all_goals first
+    | (injection h with h; subst h; simp_all [berrCode])
+    | cases h
+
+theorem berrKind_berrCode (k : CellErrorType) : berrKind (berrCode k) = some k := by cases k <;> decide
+
+/-- the BErr table is one-to-one: a code stands for a kind exactly when it is that kind's code -/
+theorem berrTable_bijective :
+    (∀ c k, berrKind c = some k ↔ c = berrCode k) ∧ (∀ k k', berrCode k = berrCode k' → k = k') ∧
+    (∀ k, berrCode k < 256) := by
+  refine ⟨fun c k => ⟨berrKind_code c k, fun h => h ▸ berrKind_berrCode k⟩, ?_, fun k => by cases k <;> decide⟩
+  intro k k' h
+  have := berrKind_berrCode k
+  rw [h, berrKind_berrCode k'] at this
+  exact (Option.some.inj this).symm
+
+theorem u32le_lt (b : Bytes) : u32le b < 4294967296 := by
+  unfold u32le
+  have h0 := (b.getD 0 0).toNat_lt; have h1 := (b.getD 1 0).toNat_lt
+  have h2 := (b.getD 2 0).toNat_lt; have h3 := (b.getD 3 0).toNat_lt
+  omega
+
+theorem interpret_value_col (ctx : Ctx) (t : Nat) (p : Bytes) (col : Nat) (v : Val)
+    (h : interpret ctx t p = .value col v) : col < 4294967296 := by
+  have hu := u32le_lt p
+  unfold interpret at h
+  repeat' split at h
+  all_goals first
+    | (injection h with h1 h2; subst h1; exact hu)
+    | cases h
+
+theorem interpret_row_lt (ctx : Ctx) (t : Nat) (p : Bytes) (r : Nat) (h : interpret ctx t p = .row r) : r < 4294967296 := by
+  have hu := u32le_lt p
+  unfold interpret at h
+  repeat' split at h
+  all_goals first
+    | (injection h with h1; subst h1; exact hu)
+    | cases h
+
+/-- every cell the loop yields has a row of at most 0x100000 (a larger row number ends the sheet) and a `u32` column -/
+theorem readCells_bounds (ctx : Ctx) : ∀ (f : Nat) (bs : Bytes) (row : Nat) (cells : List (Nat × Nat × Val)),
+    row ≤ 0x100000 → readCells ctx f bs row = .ok cells → ∀ c ∈ cells, c.1 ≤ 0x100000 ∧ c.2.1 < 4294967296
+  | 0, _, _, _, _, h => by simp [readCells] at h
+  | f+1, bs, row, cells, hrow, h => by
+    rw [readCells] at h
+    cases hr : readRecord bs with
+    | ok v =>
+      obtain ⟨t, p, rest⟩ := v
+      rw [hr] at h
+      simp only at h
+      cases hi : interpret ctx t p with
+      | value col v =>
+        rw [hi] at h
+        simp only at h
+        cases hc : readCells ctx f rest row with
+        | ok l =>
+          rw [hc] at h
+          injection h with h; subst h
+          intro c hcm
+          rcases List.mem_cons.mp hcm with rfl | hm
+          · exact ⟨hrow, interpret_value_col ctx t p col v hi⟩
+          · exact readCells_bounds ctx f rest row l hrow hc c hm
+        | err e => rw [hc] at h; cases h
+        | panic s => rw [hc] at h; cases h
+        | outOfFuel => rw [hc] at h; cases h
+      | row r =>
+        rw [hi] at h
+        simp only at h
+        split at h
+        · injection h with h; subst h; intro c hc; cases hc
+        · exact readCells_bounds ctx f rest r cells (by omega) h
+      | stop => rw [hi] at h; injection h with h; subst h; intro c hc; cases hc
+      | skip => rw [hi] at h; exact readCells_bounds ctx f rest row cells hrow h
+      | fail r =>
+        rw [hi] at h
+        obtain ⟨e, rfl⟩ := interpret_fail_err ctx t p r hi
+        cases h
+    | err e => rw [hr] at h; cases h
+    | panic s => rw [hr] at h; cases h
+    | outOfFuel => rw [hr] at h; cases h
+
+theorem sheetCells_bounds (ctx : Ctx) (bs : Bytes) (cells : List (Nat × Nat × Val)) (h : sheetCells ctx bs = .ok cells) :
+    ∀ c ∈ cells, c.1 ≤ 0x100000 ∧ c.2.1 < 4294967296 := by
+  unfold sheetCells at h
+  cases h1 : newReader bs with
+  | ok v =>
+    obtain ⟨dims, rest⟩ := v
+    rw [h1] at h
+    simp only [dimLen] at h
+    cases h2 : readCells ctx (bs.length + 1) rest 0 with
+    | ok l =>
+      rw [h2] at h
+      injection h with h; subst h
+      intro c hc
+      exact readCells_bounds ctx _ rest 0 l (by omega) h2 c (List.mem_filter.mp hc).1
+    | err e => rw [h2] at h; cases h
+    | panic s => rw [h2] at h; cases h
+    | outOfFuel => rw [h2] at h; cases h
+  | err e => rw [h1] at h; cases h
+  | panic s => rw [h1] at h; cases h
+  | outOfFuel => rw [h1] at h; cases h
 
 end Xlsb
